@@ -56,7 +56,7 @@ RULE = (
     "values judged against the declaration. 'dflt:' twin groups = {T,TB,TC} x {(tv) / (tv,tv) / (list[tv])} x "
     "{positional, keyword-only} x 6 defaults of the last parameter (None,0,1.5,'x',[],['a'] - satisfying or "
     "violating the bound/constraints), called with the parameter omitted, passed each of the 6 default expressions "
-    "(so equal to exactly one twin's default) and passed True / an int / an Any; all twins of a group in one module."
+    "(so equal to exactly one twin's default) and passed an int / an Any; all twins of a group in one module."
 )
 LEVEL_TEXT = (
     "exhaustive over the stated bound pool up to 4 bounds in all orders (so every key is seed-independent); sampled "
@@ -92,7 +92,7 @@ FLOORS = {
               "verdict_error": 680000, "verdict_ok": 50000, "e2e_cases": 3600, "e2e_accepted": 3500,
               "e2e_diagnosed": 5500, "e2e_insitu_checked": 7300, "e2e_special_calls": 4100,
               "e2e_argument_oracle_checked": 3500, "e2e_twin_groups_compared": 108, "e2e_default_omitted_calls": 72},
-    "thorough": {"distinct_nontrivial": 230000, "multisets": 230000, "size5_multisets": 19000,
+    "thorough": {"distinct_nontrivial": 230000, "multisets": 230000, "size5_multisets": 19000, "special_multisets": 50000,
                  "solver_calls": 5000000, "verdict_ok": 250000, "e2e_cases": 3600, "e2e_insitu_checked": 7300,
                  "e2e_special_calls": 4100, "e2e_argument_oracle_checked": 3500, "e2e_twin_groups_compared": 108},
 }
@@ -874,7 +874,7 @@ FAMILIES = {
     "constrained:TN,TN": (["TN", "TN"], "TN", [PLAIN, PLAIN]),
     # an Any-typed argument (each AnySource) / a partially-Any one next to two arguments that may conflict with each
     # other under the constraints, the declared bound, or an upper bound from a callback parameter; all 6 orders
-    "any:TC,TC,TC": (["TC", "TC", "TC"], "TC", [ANYS + PARTIAL_ANYS[2:], ["1", "i", "'x'", "s", "bo", "None", "fl"],
+    "any:TC,TC,TC": (["TC", "TC", "TC"], "TC", [ANYS + PARTIAL_ANYS[2:], ["1", "i", "'x'", "s", "None", "fl"],
                                               ["'x'", "s", "1", "a", "any_"]]),
     "any:TB,TB,TB": (["TB", "TB", "TB"], "TB", [ANYS, ["1", "fl", "'x'", "None", "bo"], ["'x'", "s", "1.5", "a"]]),
     "any:T,T,Callable[[T],None]": (["T", "T", "Callable[[T], None]"], "T",
@@ -905,7 +905,7 @@ FAMILIES = {
 # default, or passed something else.  style 'pos' = positional-or-keyword parameters and positional arguments, 'kw' =
 # keyword-only parameters and keyword arguments (then every order of the parameters is a valid signature).
 DEFAULTS = ["None", "0", "1.5", "'x'", "[]", "['a']"]
-DFLT_ARGS = DEFAULTS + ["True", "i", "any_"]
+DFLT_ARGS = DEFAULTS + ["i", "any_"]
 DFLT_SHAPES = {"{tv}": (["{tv}"], [DFLT_ARGS]), "{tv},{tv}": (["{tv}", "{tv}"], [["1", "'x'"], DFLT_ARGS]),
                "list[{tv}]": (["list[{tv}]"], [DFLT_ARGS])}
 DFLT_GROUPS: dict = {}
